@@ -494,6 +494,69 @@ class Engine:
                                 except Dead:
                                     continue
                             return outs
+                        if c[0] in ("bit", "isvar"):
+                            # `(x & FLAG != 0) as u16`, `opt.is_some() as u16`: arithmetic on presence flags; decided
+                            # like the `if` it replaces (same refinement, same partition rule as a switch on the bool)
+                            c0 = self.simplify_cond(st, src.cond)
+                            outs = []
+                            for truth in (True, False):
+                                ns = st.fork()
+                                try:
+                                    ki = self.assume(ns, c0, truth)
+                                except Dead:
+                                    continue
+                                if ki is not None and ki not in ns.key and (self._want_partition(fr, b, "cond", ki) or (ki[0] == "variant" and self._cond_key_adt(st, c0))):
+                                    ns.key = ns.key + (ki,)
+                                try:
+                                    outs.extend(self.exec_block(fr, b, ns, si))
+                                except Dead:
+                                    continue
+                            return outs
+                    elif isinstance(src, Int) and not src.lin.is_const() and any(isinstance(tg, tuple) and tg[0] == "discr" for tg in src.tags) and ("c" in rv["a"] or "m" in rv["a"]):
+                        # `enum_value as uN` (MIR: discriminant read, then an int-to-int cast): one successor per
+                        # variant, like the `match` it replaces
+                        dt = [tg for tg in src.tags if isinstance(tg, tuple) and tg[0] == "discr"][0]
+                        ev = self.M.read_path(st, dt[1], dt[2])
+                        if isinstance(ev, Enum) and 1 < len(ev.variants) <= 8:
+                            pl = rv["a"].get("c") or rv["a"].get("m")
+                            sloc, spath = self.M.resolve(st, fr, pl)
+                            outs = []
+                            for vi, _fs in ev.variants:
+                                ns = st.fork()
+                                try:
+                                    self.M.write_path(ns, dt[1], dt[2], self.M.refine_enum(ns, ev, {vi}))
+                                    self.M.write_path(ns, sloc, spath, int_const(self.T.variant_discr(ev.ty, vi), src.w, src.signed)._replace(tags=src.tags))
+                                except Dead:
+                                    continue
+                                if self._want_partition(fr, b, "variant", ev.name) or self._key_adt(ev):
+                                    ki = ("variant", ev.name, self.T.variant_name(ev.ty, vi))
+                                    if ki not in ns.key:
+                                        ns.key = ns.key + (ki,)
+                                try:
+                                    outs.extend(self.exec_block(fr, b, ns, si))
+                                except Dead:
+                                    continue
+                            return outs
+                    elif isinstance(src, Enum) and 1 < len(src.variants) <= 8 and all(not fs for _, fs in src.variants) and "c" in rv["a"] or isinstance(src, Enum) and 1 < len(src.variants) <= 8 and all(not fs for _, fs in src.variants) and "m" in rv["a"]:
+                        # fieldless enum `as` integer: one successor per variant (the `match` it replaces)
+                        pl = rv["a"].get("c") or rv["a"].get("m")
+                        loc, path = self.M.resolve(st, fr, pl)
+                        outs = []
+                        for vi, _fs in src.variants:
+                            ns = st.fork()
+                            try:
+                                self.M.write_path(ns, loc, path, self.M.refine_enum(ns, src, {vi}))
+                            except Dead:
+                                continue
+                            if self._want_partition(fr, b, "variant", src.name) or self._key_adt(src):
+                                ki = ("variant", src.name, self.T.variant_name(src.ty, vi))
+                                if ki not in ns.key:
+                                    ns.key = ns.key + (ki,)
+                            try:
+                                outs.extend(self.exec_block(fr, b, ns, si))
+                            except Dead:
+                                continue
+                        return outs
                 v = self.eval_rvalue(fr, st, s["rv"], s)
                 loc, path = self.M.resolve(st, fr, s["p"])
                 self.M.write_path(st, loc, path, v)
